@@ -192,6 +192,46 @@ def _inside(u, lineno: int, scopes) -> bool:
     return False
 
 
+def handlers_catching(g, node) -> set:
+    """Ids of the `except` nodes that an exception raised at *node* can arrive at: directly, handed on by the cleanup of
+    a `with` / `finally` it passes on the way out, or re-raised by an inner handler."""
+    import ast
+    out, seen = set(), set()
+    stack = [e for e in g.succ[node.id] if e.label == 'exc']
+    while stack:
+        e = stack.pop()
+        if id(e) in seen:
+            continue
+        seen.add(id(e))
+        d = e.dst
+        if d is g.raise_exit:
+            continue
+        if d.kind == 'except':
+            out.add(d.id)
+            h = d.ast if isinstance(d.ast, ast.ExceptHandler) else None
+            if h is not None:
+                inside = {id(x) for x in ast.walk(h)}
+                for n in g.nodes:
+                    if n.kind == 'raise' and isinstance(n.ast, ast.Raise) and id(n.ast) in inside:
+                        stack.extend(e2 for e2 in g.succ[n.id] if e2.label == 'exc')
+            continue
+        todo, visited = [d], set()
+        while todo:
+            n = todo.pop()
+            if n.id in visited:
+                continue
+            visited.add(n.id)
+            if n.kind == 'cleanup_end' and n.meta.get('how') == 'exc':
+                stack.extend(e2 for e2 in g.succ[n.id] if e2.label == 'exc')
+                continue
+            if n.kind == 'except':
+                continue
+            for e2 in g.succ[n.id]:
+                if e2.label != 'exc':
+                    todo.append(e2.dst)
+    return out
+
+
 def exception_escapes(g, edge, _seen=None) -> bool:
     """Does the exception travelling along *edge* itself leave the function?  It is followed outwards through cleanup
     blocks (finally / with exits, which hand it on at their `cleanup_end`) and through handlers that re-raise it (a bare
